@@ -115,7 +115,7 @@ class Job:
 
     def __init__(self, name, harness, defines, cbmc_srcs, native_srcs, backend="z3", unwind=40,
                  timeout=300, config="default", extra=(), facet="", unwindset=(), expect_fail=None,
-                 shape=None, note="", instrument=()):
+                 shape=None, note="", instrument=(), branch_srcs=()):
         self.name = name
         self.harness = os.path.join(HARN, harness)
         self.defines = dict(defines)
@@ -134,6 +134,8 @@ class Job:
         # the TU is compiled by goto-cc, goto-instrument --remove-function-body drops the callees,
         # and the harness's recording stubs are linked instead (call-contract queries)
         self.instrument = [(a, tuple(b)) for a, b in instrument]
+        # library sources compiled by goto-cc and instrumented with `goto-instrument --branch ct_obs` (C07)
+        self.branch_srcs = list(branch_srcs)
 
     def dflags(self):
         return ["-D%s=%s" % (k, v) if v is not None else "-D%s" % k for k, v in sorted(self.defines.items())]
@@ -150,6 +152,8 @@ class Job:
             del ex[i:i + 2]
         cmd = ["cbmc"] + self.incflags() + pp + self.dflags() + [self.harness] + self.cbmc_srcs
         cmd += [instrumented_gb(self, src, funcs) for src, funcs in self.instrument]
+        if self.branch_srcs:
+            cmd.append(branch_gb(self))
         flags = list(CBMC_FLAGS)
         extra = ex
         if "--no-pointer-overflow-check-marker" in extra:
@@ -206,6 +210,27 @@ def instrumented_gb(job, src, funcs):
         rc, out, _ = run_proc(cmd + [base + ".gb", base + "-i.gb"], 120)
         if rc != 0:
             raise RuntimeError("goto-instrument failed: " + out[-500:])
+        _gb_cache[key] = base + "-i.gb"
+        return _gb_cache[key]
+
+
+def branch_gb(job):
+    import threading
+    global _gb_lock
+    if _gb_lock is None:
+        _gb_lock = threading.Lock()
+    key = ("branch", tuple(job.branch_srcs), tuple(sorted(job.defines.items())), job.config)
+    with _gb_lock:
+        if key in _gb_cache:
+            return _gb_cache[key]
+        base = os.path.join(scratch(), "br-%d" % len(_gb_cache))
+        rc, out, _ = run_proc(["goto-cc"] + job.incflags() + job.dflags() + job.branch_srcs +
+                              [os.path.join(HARN, "stubs/ct_decl.c"), "-o", base + ".gb"], 180)
+        if rc != 0:
+            raise RuntimeError("goto-cc failed: " + out[-500:])
+        rc, out, _ = run_proc(["goto-instrument", "--branch", "ct_obs", base + ".gb", base + "-i.gb"], 180)
+        if rc != 0:
+            raise RuntimeError("goto-instrument --branch failed: " + out[-500:])
         _gb_cache[key] = base + "-i.gb"
         return _gb_cache[key]
 
@@ -429,6 +454,12 @@ def native_build(job):
         for f in funcs:
             wk += ["-W", f]
         run_proc(["objcopy"] + wk + [o], 60)
+        objs.append(o)
+    for i, src in enumerate(getattr(job, "branch_srcs", [])):
+        if src.endswith("libc.c") or src.endswith("perm_uf.c") or "abs_hash" in src:
+            continue                                   # CBMC-only stand-ins
+        o = "%s-b%d.o" % (exe, i)
+        run_proc(["gcc", "-O0", "-fsanitize-coverage=trace-pc", "-w", "-std=gnu99", "-c"] + job.incflags() + job.dflags() + [src, "-o", o], 120)
         objs.append(o)
     cmd = ["gcc", "-O1", "-w", "-std=gnu99"] + job.incflags() + job.dflags() + \
           [job.harness] + NATIVE + job.native_srcs + objs + ["-o", exe]
